@@ -42,13 +42,18 @@ EMPTY = '--'
 CMD_TIMEOUT = 120      # a command that hangs is reported, not waited for
 
 REL_PATHS = ['a.txt', 'b.log', 'dir/a.txt', 'dir/b.log', 'dir/sub/c.dat', 'x_y.txt', 'z', 'data.bin', 'notes.md', 'dir/sub/deep/e.txt']
+# paths that differ from another path only by case (the scratch file system is case-sensitive)
+CASE_PAIRS = [['Makefile', 'makefile'], ['README.md', 'readme.md'], ['dir/A.TXT', 'dir/a.txt'], ['Z', 'z'], ['dir/Notes.MD', 'dir/notes.md']]
 SIZES = [0, 0, 1, 15, 64, 100, 999, 1000, 1001, 1005, 1015, 1125, 1375, 1995, 2500, 4321, 12345]
 BIG_SIZES = [999_999, 1_000_000, 1_000_001, 1_005_000, 1_125_000, 1_234_567]
 # every pattern is self-contained (no numbered back-reference, no inline global flag): those two
 # classes are the known finding and are exercised by the dedicated probe only
 FILE_RES = [r'\.txt$', r'\.log$', r'/dir/', r'/dir/sub/', r'^/.*\.dat$', r'[xy]_', r'a\.txt$|/z$', r'/src/[^/]*$',
             r'(?:sub|dir)/[a-c]', r'nomatch-', r'^', r'\.(txt|md)$', r'b', r'/src/a\.txt$', r'^src/', r'^/src/', r'^a\.txt$',
-            r'[0-9a-z_]+\.[a-z]{3}$', r'(dir/)+sub', r'\.bin$']
+            r'[0-9a-z_]+\.[a-z]{3}$', r'(dir/)+sub', r'\.bin$',
+            # letters in both cases: a filter must not select a path that differs from it only by case
+            r'/Makefile$', r'/makefile$', r'README', r'readme\.md$', r'\.TXT$', r'\.txt$', r'/[A-Z][^/]*$', r'/[a-z]+$', r'/Z$', r'notes\.md$|A\.TXT$',
+            r'\.MD$', r'DIR/', r'Src/']
 NOTES = [None, None, 'first', 'two words', '', 'x-1']
 
 
@@ -135,6 +140,7 @@ def gen_sre(rng, nsnaps):
         [['exact', i], ['exact', j]], [['prefix', i, 6], ['suffix', j, 6]], [['raw', '^[0-7]']], [['raw', '[89a-f]$']],
         [['raw', 'a.*b']], [['raw', '^$']], [['raw', '']], [['raw', '^[0-9a-f]+$']], [['location', i]], [['raw', '^snapshots/']],
         [['raw', '-']], [['tagprefix', i]], [['raw', '^[0-3]'], ['raw', '^[c-f]']], [['notprefix', i]],
+        [['upper', i]], [['upperprefix', i, rng.choice([6, 12])]], [['raw', '[A-F]']], [['upper', i], ['exact', j]], [['raw', '^[0-9A-F]+$']],
     ])
     return one
 
@@ -168,13 +174,17 @@ def gen_plan(rng, idx, big=False):
     nsnaps = rng.randint(2, 8)
     users = ['u0', 'u1', 'u2'] if encrypted else ['u0']
     plan = {'idx': idx, 'encrypted': encrypted, 'cipher': rng.choice(['aes_gcm', 'chacha20_poly1305']),
-            'hash_length': rng.choice([16, 32, 32, 64]), 'concurrent': rng.choice([1, 2, 3]),
+            'hash_length': rng.choice([16, 32, 32, 64]), 'concurrent': rng.choice([1, 1, 2, 3]),
+            'slow_snapshot_downloads': rng.random() < 0.3,
             'chunking': [8192, 65536] if big else rng.choice([[16, 64], [64, 256], [512, 4096]]), 'users': users}
     # one history in six runs under a daylight-saving local time zone with clock readings around the
     # transitions (the code must not look at local time at all)
     plan['tz'] = rng.choice(TZS) if rng.random() < 0.17 else None
     instants = gen_dst_instants(rng, nsnaps, plan['tz']) if plan['tz'] else gen_instants(rng, nsnaps)
     paths = rng.sample(REL_PATHS, rng.randint(2, 7))
+    if rng.random() < 0.6:
+        for pair in rng.sample(CASE_PAIRS, rng.choice([1, 2])):
+            paths += [p for p in pair if p not in paths]
     state, snaps = {}, []
     vseed = rng.randrange(1 << 30)
     for i in range(nsnaps):
@@ -293,6 +303,16 @@ def same_version(got, f):
 
 
 # --------------------------------------------------------------------------- running the real commands
+class SlowSnapshots(MemBackend):
+    """snapshot objects take a few milliseconds to download: with fewer loader threads than snapshots the
+    listing of snapshots/ is consumed long before the queued downloads start"""
+
+    def download(self, name):
+        if name.startswith('snapshots/'):
+            time.sleep(0.004)
+        return super().download(name)
+
+
 class Exec:
     """Executes one plan on the real Repository; keeps ground truth; records observations."""
 
@@ -306,7 +326,7 @@ class Exec:
         self.combine = _combine_optional_regexes
         self.ReplicatError = exceptions.ReplicatError
         self.plan, self.scratch = plan, scratch
-        self.backend = MemBackend()
+        self.backend = SlowSnapshots() if plan.get('slow_snapshot_downloads') else MemBackend()
         self.keys = {}
         self.recs = []           # ground truth per snapshot taken
         self.obs = []            # per query: dict
@@ -455,6 +475,10 @@ class Exec:
                 out.append(re.escape(rec['location']))
             elif kind == 'tagprefix':
                 out.append('^' + rec['tag'][:7])
+            elif kind == 'upper':        # a spelling of the name that no listing prints
+                out.append('^' + rec['name'].upper() + '$')
+            elif kind == 'upperprefix':
+                out.append('^' + rec['name'][:s[2]].upper())
             elif kind == 'notprefix':
                 out.append('^(?!' + rec['name'][:5] + ')')
         return out
@@ -952,7 +976,7 @@ def probe_regex_combination(scratch: Path, rep: Report):
 
 # --------------------------------------------------------------------------- the check
 RULE = ('case = one history: 2-8 snapshots by up to 3 users (own / same family other key / other family) of an evolving tree '
-        '(paths appear, change, keep content with a new mtime, disappear; some files appended to / truncated between being read and being stat-ed; a quarter of the snapshots re-recorded in the pre-1.3 seconds metadata format) at scripted pairwise distinct utcnow() instants '
+        '(paths appear, change, keep content with a new mtime, disappear; path pairs differing only by case; some files appended to / truncated between being read and being stat-ed; a quarter of the snapshots re-recorded in the pre-1.3 seconds metadata format) at scripted pairwise distinct utcnow() instants '
         '(same second different microseconds incl. 0, second...year roll-overs, years 1..9999, not in chronological order; one history in six under a daylight-saving TZ with readings in the skipped / repeated hour), '
         'then restore / list-snapshots / list-files queries with 0-2 snapshot and file patterns each and every kind of column '
         'selection, refused deletes, a delete by printed names, and the queries again; non-trivial = at least two readable '
@@ -980,6 +1004,9 @@ def check_plans(plans, scratch: Path, rep: Report, with_model=True):
         rep.count('encrypted' if plan['encrypted'] else 'unencrypted')
         rep.count(f'snapshots={len(plan["snapshots"])}')
         rep.count('tz=' + (plan.get('tz') or 'unset').split(',')[0])
+        rep.count('loader_threads' + ('<' if plan['concurrent'] < len(plan['snapshots']) else '>=') + 'snapshots' + (',slow' if plan.get('slow_snapshot_downloads') else ''))
+        if any(len({q.lower() for q in sn['files']}) < len(sn['files']) for sn in plan['snapshots']):
+            rep.count('case_only_path_pairs')
         for s in plan['snapshots']:
             rep.count('metadata=' + (('pre-1.3 ' + s['legacy']) if s.get('legacy') else 'ns'))
             for how, _ in s.get('late', {}).values():
